@@ -212,6 +212,11 @@ func runC20(c *Ctx) {
 					return ev.Label == "if" && len(ev.Args) > 0 && (cls(e, newState(), ev.Args[0]) == "NEW>MAX" || cls(e, newState(), ev.Args[0]) == "NEW<MIN")
 				})
 				si := p.Index(0, storeVal)
+				if si >= 0 && !clamp && drawnArith(p.Trace[si].Args[1].V, 0) {
+					// computed from a random draw (not an element picked from an option list), yet stored
+					// without passing the two range comparisons
+					c.Bad("C20.clamp", fnName(f), "a drawn value reaches .Value without the range clamps", P.Pos(posOf(p.Trace[si].In)), "stores "+Expr(p.Trace[si].Args[1].V)+"; path: "+p.String())
+				}
 				if !clamp || si < 0 {
 					continue
 				}
@@ -675,4 +680,34 @@ func oneofImplementers(P *Prog, pkg, iface string) []string {
 	}
 	sortStrings(out)
 	return out
+}
+
+// drawnArith: the value is arithmetic over the result of a *rand.Rand method (a generated number),
+// as opposed to a constant or an element selected from a configured list.
+func drawnArith(v ssa.Value, d int) bool {
+	if d > 10 || v == nil {
+		return false
+	}
+	switch x := v.(type) {
+	case *ssa.BinOp:
+		return drawnArith(x.X, d+1) || drawnArith(x.Y, d+1)
+	case *ssa.Convert:
+		return drawnArith(x.X, d+1)
+	case *ssa.ChangeType:
+		return drawnArith(x.X, d+1)
+	case *ssa.Phi:
+		for _, e := range x.Edges {
+			if drawnArith(e, d+1) {
+				return true
+			}
+		}
+	case *ssa.Call:
+		if g := staticCallee(&x.Call); g != nil && g.Signature.Recv() != nil {
+			if pp := pkgPathOf(g); pp == "math/rand" || pp == "math/rand/v2" {
+				// a draw used as a number; an index into an option list is not arithmetic on the stored value
+				return true
+			}
+		}
+	}
+	return false
 }
